@@ -4,8 +4,8 @@ from gen_structure import *  # noqa
 PROP_FILES = ["Structure/Properties_C06.v"]
 MANIFEST = dict(
     technique="Coq proof (commuting per-entry updates + induction over the tree; case analysis of the limit check) on a Gallina model of StructureScanState / StructureChecker, glob answers entering as oracle columns; tied by differential execution on real directory trees (both scanner back-ends, library pipeline and the real CLI) and on arbitrary DirStats maps",
-    text="Theorems C06_counts_exact (for every tree with distinct sibling names and EVERY processing order of the walked entries the dir_stats map equals the true counts), C06_order_independent, C06_fail_iff, C06_zero_forbids, C06_unlimited_disables, C06_warn_iff, C06_last_rule_wins_with_inheritance, C06_relative_depth, C06_explain_same_limits hold without bounds. The tie to the Rust code: generated trees (width<=12, depth<=7, hidden entries, empty dirs, symlinks/FIFOs, ignored and excluded subtrees, count_exclude) x generated [structure] configurations, observed through the library pipeline (full dir_stats), `check --format json` and `explain --format json`, compared with the extracted model, with the generator's own count of the tree it built and with the Coq spec of the verdicts.",
-    note="Trusted: Coq kernel, extraction, harness sgv-structure (oracle columns are computed with the real compiled globset matchers of the real configuration), python generators. Not modelled: walkdir/ignore traversal and .gitignore semantics (the ignored set enters as data and is cross-checked against the generator's reading of the few ignore forms it writes), f64 parsing of TOML, multiple scan roots, absolute scan roots (the roots used are `t` and `./t`; since fixes/D07 every pattern site matches the normalised path and the check holds both spellings, `./`-spelled scopes, excludes and DirStats keys to the same answers).",
+    text="Theorems C06_counts_exact (for every tree with distinct sibling names and EVERY processing order of the walked entries the dir_stats map equals the true counts), C06_order_independent, C06_fail_iff, C06_zero_forbids, C06_unlimited_disables, C06_warn_iff, C06_last_rule_wins_with_inheritance, C06_relative_depth (components of the normalised directory path minus the scope's literal prefix, fixes/D47), C06_relative_depth_root_independent, C06_walk_depth_vs_project_depth, C06_explain_same_limits hold without bounds; several scan roots collapse to the outermost ones (Structure/Roots.v, theorems C07_roots_*, fixes/D50) so one directory has one record. The tie to the Rust code: generated trees (width<=12, depth<=7, hidden entries, empty dirs, symlinks/FIFOs, ignored and excluded subtrees, count_exclude) x generated [structure] configurations, observed through the library pipeline (full dir_stats), `check --format json` and `explain --format json`, compared with the extracted model, with the generator's own count of the tree it built and with the Coq spec of the verdicts.",
+    note="Trusted: Coq kernel, extraction, harness sgv-structure (oracle columns are computed with the real compiled globset matchers of the real configuration), python generators. Not modelled: walkdir/ignore traversal and .gitignore semantics (the ignored set enters as data and is cross-checked against the generator's reading of the few ignore forms it writes), f64 parsing of TOML, absolute scan roots other than as superfluous extra roots (the roots walked are `t` and `./t`; requests of several roots at or below t in all spellings, and resolve_scan_paths on arbitrary requests, are covered; since fixes/D07 every pattern site matches the normalised path and the check holds both spellings, `./`-spelled scopes, excludes and DirStats keys to the same answers).",
     ref="5 (C06)")
 
 FLAVOURS = ["limits"] * 5 + ["probe"] * 2 + ["mix"] * 2 + ["placement"]
@@ -21,7 +21,7 @@ def run(ctx):
     run_structure(ctx, "C06", PROP_FILES, FLAVOURS, 2000 if quick else 12000, 5 if quick else 6, 3000 if quick else 20000, nontrivial)
     ctx.cov["rule"] = ("seeded generator: real directory trees under a sandbox (scan root spelled `t` or `./t`; scopes, excludes and DirStats keys also written with a leading `./`; width<=12, depth<=7; hidden names, empty dirs, symlinks to file/dir/nothing, FIFOs; "
                        ".gitignore files with name/extension/anchored/dir-only forms; scanner.exclude and count_exclude patterns of six forms) x [structure] configurations "
-                       "(global and per-rule limits placed within +-2 of real figures, -1/0, warn_*_at, percentage thresholds, overlapping scopes, relative_depth, 6% rejected configurations), "
+                       "(global and per-rule limits placed within +-2 of real figures, -1/0, warn_*_at, percentage thresholds, overlapping scopes, relative_depth, 6% rejected configurations), command-line -x/--exclude patterns (35%), requests of several scan roots (22%), "
                        "run through the library pipeline with both back-ends, every 5th also through `sgcli check` + `explain`; plus StructureChecker::check on arbitrary DirStats maps with "
                        "figures at limit-1/limit/limit+1 and around every warn point. non-trivial = distinct case in which a directory lies within +-1 of an applicable limit, is matched by a rule, "
                        "or a limit violation/warning is produced")
@@ -30,7 +30,7 @@ def run(ctx):
         "walkdir / ignore traversal and .gitignore semantics are not modelled: the set of yielded entries is data, cross-checked against the generator's own expectation",
         "binary64 product and ceiling through Coq.Floats.SpecFloat (no axioms); TOML float parsing trusted"]
     ctx.assumptions = ["sibling names in a directory are pairwise distinct (file-system invariant; hypothesis wf_tree of C06_counts_exact)",
-                       "a single relative scan root, spelled `t` or `./t` (absolute roots: property C08)",
+                       "the walked scan root is relative, spelled `t` or `./t` (absolute roots: property C08); further requested roots (other spellings of t, directories and files below it, absolute spellings for the real CLI) must be dropped by resolve_scan_paths; disjoint walked roots are covered at the level of resolve_scan_paths only (theorem C07_roots_walks_disjoint: their walks share no path)",
                        "the scan root itself is not matched by scanner.exclude"]
 
 
